@@ -25,10 +25,11 @@ SCRATCH = "/tmp/mut_tr6_out"
 
 A = "mofun/atoms.py"
 D = "mofun/detect_bonds.py"
+U = "mofun/rough_uff.py"
 
 # (name, kind, file, [(old text, new text)], Props ids, expectation)
 MUTATIONS = [
-    ("unchanged", "control", None, [], "C10 C09 C12 C17", "pass"),
+    ("unchanged", "control", None, [], "C10 C09 C12 C17 C19", "pass"),
     # ---- item 1: Atoms.__delitem__
     ("delitem: angle_types deleted with the BOND row list", "breaking", A,
      [("            self.bonds, arr_idx_to_delete = self._delete_and_reindex_atom_index_array(self.bonds, sorted_indices)\n",
@@ -136,6 +137,22 @@ MUTATIONS = [
     ("detect_bonds NEUTRAL: branches of the cell test exchanged (is None)", "neutral", D,
      [("    if structure.cell is not None:\n        # look at all 27-1 neighbors\n        uc_offsets = uc_neighbor_offsets(structure.cell)\n    else:\n        # look at only central cell since no boundaries\n        uc_offsets = np.array([[0., 0., 0.]])\n",
        "    if structure.cell is None:\n        uc_offsets = np.array([[0., 0., 0.]])\n    else:\n        uc_offsets = uc_neighbor_offsets(structure.cell)\n")], "C17", "pass"),
+    # ---- item 5 (first half): calc_angles
+    ("calc_angles: combinations -> permutations", "unsupported", U,
+     [("for (a,b) in itertools.combinations(g.neighbors(n), 2)]", "for (a,b) in itertools.permutations(g.neighbors(n), 2)]")], "C19", "Unsupported"),
+    ("calc_angles: the centre is written first (n, a, b)", "breaking", U,
+     [("angles += [(a, n, b) for (a,b) in", "angles += [(n, a, b) for (a,b) in")], "C19", "fail"),
+    ("calc_angles: ends exchanged (b, n, a)", "breaking", U,
+     [("angles += [(a, n, b) for (a,b) in", "angles += [(b, n, a) for (a,b) in")], "C19", "fail"),
+    ("calc_angles: angles = … instead of += (only the last node)", "breaking", U,
+     [("        angles += [(a, n, b) for (a,b) in", "        angles = [(a, n, b) for (a,b) in")], "C19", "fail"),
+    ("calc_angles: edges added twice (EQUIVALENT by de-duplication, but the proof does not follow it: rejected conservatively)", "equivalent", U,
+     [("    g.add_edges_from(bonds)\n\n    angles = []\n", "    g.add_edges_from(bonds)\n    g.add_edges_from(bonds)\n\n    angles = []\n")], "C19", "fail"),
+    ("calc_angles: combinations of 3", "unsupported", U,
+     [("itertools.combinations(g.neighbors(n), 2)]", "itertools.combinations(g.neighbors(n), 3)]")], "C19", "Unsupported"),
+    ("calc_angles NEUTRAL: locals renamed, explicit concatenation", "neutral", U,
+     [("    for n in g.nodes:\n        angles += [(a, n, b) for (a,b) in itertools.combinations(g.neighbors(n), 2)]\n",
+       "    for centre in g.nodes:\n        new = [(x, centre, y) for (x, y) in itertools.combinations(g.neighbors(centre), 2)]\n        angles = angles + new\n")], "C19", "pass"),
     ("getitem NEUTRAL: keywords reordered", "neutral", A,
      [("        return Atoms(positions=np.take(self.positions, idx, axis=0),\n                     atom_types=np.take(self.atom_types, idx, axis=0),\n",
        "        return Atoms(atom_types=np.take(self.atom_types, idx, axis=0),\n                     positions=np.take(self.positions, idx, axis=0),\n")], "C09", "pass"),
@@ -264,7 +281,36 @@ def python_side():
     for c in (-1., 0., 3., 3.0000001, 3.7):
         assert bool(np.any(ss < c)) == (0 < c and any(d < c * c for d in (9., 10., 13.))), c
     assert [1, 2, 3, 4][2 + 1:] == [4] and [1, 2][5:] == []
-    return "python side: numpy / scipy conventions of Py6 hold"
+    # Py6.nxNodes / nxNeighbors / combinations2 against the installed networkx / itertools (the examples of Props/C19Code6.lean)
+    import itertools
+    import networkx as nx
+
+    def dedup(xs):
+        return list(dict.fromkeys(xs))
+
+    def nodes(edges):
+        return dedup([v for e in edges for v in e])
+
+    def neighbors(edges, n):
+        return dedup([(e[1] if e[0] == n else e[0]) for e in edges if n in e])
+
+    def comb2(xs):
+        return [(xs[i], xs[j]) for i in range(len(xs)) for j in range(i + 1, len(xs))]
+    g = nx.Graph(); g.add_edges_from([(2, 1), (1, 3), (1, 0), (3, 4)])
+    assert list(g.nodes) == [2, 1, 3, 0, 4] and list(g.neighbors(1)) == [2, 3, 0] == list(g.adj[1])
+    g2 = nx.Graph(); g2.add_edges_from([(2, 1), (1, 2), (1, 1), (2, 1)])
+    assert list(g2.neighbors(1)) == [2, 1]
+    assert list(itertools.combinations([2, 3, 0], 2)) == [(2, 3), (2, 0), (3, 0)]
+    import random
+    rnd = random.Random(6)
+    for _ in range(300):
+        edges = [(rnd.randrange(6), rnd.randrange(6)) for _ in range(rnd.randrange(9))]
+        g = nx.Graph(); g.add_edges_from(np.array(edges).reshape(-1, 2).tolist())
+        assert list(g.nodes) == nodes(edges), edges
+        for n in g.nodes:
+            assert list(g.neighbors(n)) == neighbors(edges, n) == list(g.adj[n]), (edges, n)
+            assert list(itertools.combinations(g.neighbors(n), 2)) == comb2(neighbors(edges, n))
+    return "python side: numpy / scipy / networkx / itertools conventions of Py6 hold"
 
 
 def main():
